@@ -2001,6 +2001,8 @@ class Engine:
 
     def binop(self, op, a, b, node):
         a, b = self.unopt(a, node), self.unopt(b, node)
+        if (a is None or b is None) and not getattr(self, 'in_spec', False):
+            raise PyExc('TypeError', node.lineno)         # arithmetic on None (an escaping TypeError is a raises-only obligation)
         if isinstance(a, VTerms) and isinstance(b, VTuple) and isinstance(op, ast.Add) and len(b.items) == 2:
             return VCon(a.term, b.items[0], b.items[1])
         if isinstance(a, (VTuple,)) and isinstance(b, VTuple) and isinstance(op, ast.Add):
@@ -2252,7 +2254,13 @@ class Engine:
         if isinstance(container, VSeq) and container.sortname == 'ISeq':
             if isinstance(x, int) and x == 0:
                 return specs.haszero(container.term)
+            if isinstance(x, int) or (is_z3(x) and z3.is_int(x)):
+                k = z3.Int('k!in')
+                return z3.Exists([k], z3.And(0 <= k, k < specs.ilen(container.term), specs.iget(container.term, k) == toz(x)))
             raise Unsupported('membership in abstract sequence')
+        if isinstance(container, (VArr, VRow)) and (isinstance(x, int) or (is_z3(x) and z3.is_int(x))) and container.arr.sort().range() == z3.IntSort():
+            k = z3.Int('k!in')
+            return z3.Exists([k], z3.And(0 <= k, k < toz(container.length), z3.Select(container.arr, k) == toz(x)))
         if isinstance(container, VOpaque):
             return self.fresh('opaque_in', z3.BoolSort())     # content not modelled: either answer
         if isinstance(container, VArr2) and container.present is not None:
@@ -3041,6 +3049,12 @@ class Engine:
                 continue
             g = self.spec_eval(cond, env)
             if self.branch(toz(g) if not isinstance(g, bool) else g):
+                raise PyExc(exc, node.lineno)
+        for exc, cond in c.get('may_raise', {}).items():
+            # the callee raises ONLY under this condition, and need not raise even then (e.g. a view that validates its argument in
+            # one implementation of the interface and not in another): both outcomes are explored
+            g = self.spec_eval(cond, env)
+            if self.branch(toz(g) if not isinstance(g, bool) else g) and self.choose(2) == 1:
                 raise PyExc(exc, node.lineno)
         # frame: havoc what the callee may modify
         for m in c.get('modifies', []):
@@ -4370,6 +4384,31 @@ LIBRARY['random.shuffle'] = lib_random_shuffle
 LIBRARY['collections.OrderedDict'] = lambda eng, node, *a: VOpaque('OrderedDict')
 LIBRARY['copy.copy'] = lib_copy
 LIBRARY['copy'] = lib_copy
+def lib_bisect_left(eng, node, row, x, lo=None, hi=None):
+    """bisect.bisect_left(a, x[, lo]) on a list of ints (or a 1-based table searched from lo >= 1): on a SORTED range everything
+    before the result is < x, everything from it on is >= x"""
+    if not isinstance(row, (VRow, VArr)) or hi is not None:
+        raise Unsupported('bisect_left on {!r}'.format(row))
+    n, a = row.length, row.arr
+    start = toz(lo) if lo is not None else z3.IntVal(0)
+    eng.oblige('hazard', 'bisect_left: lo is not negative (ValueError)', start >= 0, node.lineno)
+    if isinstance(row, VArrN0):
+        # entry 0 is None: it must stay outside the searched range
+        eng.oblige('hazard', 'bisect_left never compares with the None head (TypeError): the search starts at 1 or the range is empty',
+                   z3.Or(start >= 1, start >= n), node.lineno)
+    pos = eng.fresh('bisectl')
+    k, j = z3.Int('k!bl'), z3.Int('j!bl')
+    eng.pc.append(z3.And(zmin(start, n) <= pos, pos <= zmax(n, start)))
+    srt = z3.ForAll([k, j], z3.Implies(z3.And(start <= k, k < j, j < n), z3.Select(a, k) <= z3.Select(a, j)))
+    eng.pc.append(z3.Implies(z3.And(srt, start <= n), z3.And(
+        start <= pos, pos <= n,
+        z3.ForAll([k], z3.Implies(z3.And(start <= k, k < pos), z3.Select(a, k) < toz(x))),
+        z3.ForAll([k], z3.Implies(z3.And(pos <= k, k < n), z3.Select(a, k) >= toz(x))),
+        z3.Implies(pos > start, z3.Select(a, pos - 1) < toz(x)), z3.Implies(pos < n, z3.Select(a, pos) >= toz(x)))))
+    return pos
+
+
+LIBRARY['bisect.bisect_left'] = lib_bisect_left
 LIBRARY['bisect.bisect_right'] = lib_bisect_right
 def lm_mclist_sort(eng, node, o):
     """list.sort() on a list of integer lists: afterwards the list holds the same items in SOME order (a permutation; that the
